@@ -166,7 +166,7 @@ CHECKS['C08'] = dict(
     text="Proof (partial): for every table of object-like macros (self-, mutual and forward reference, any nesting), every text and every amount of fuel, the lexer's stack of active "
          "expansions (get_identifier / expand_manifest / push_expansion with _ignore_manifest and should_ignore_manifest) produces exactly the tokens of the hide-set algorithm of C11 "
          "6.10.3.4 (lock-step simulation: the tokens of a frame carry the hide set of the macros of that frame and below), also with #define/#undef/redefinition interleaved with text; "
-         "completed results do not depend on fuel. Correspondence: generated object-like programs through parse_file -E, the extracted machine and gcc -E (which also validates the Coq "
+         "completed results do not depend on fuel; the # operator: CPPManifest::stringify as a character-level state machine yields, for every argument made of well-formed tokens, the literal 6.10.3.2 prescribes (the pinned machine, which let a quote of the other kind toggle its state, is refuted). Correspondence: stringify against the extracted machine on generated texts; generated object-like programs through parse_file -E, the extracted machine and gcc -E (which also validates the Coq "
          "semantics). Function-like replacement is compared with gcc -E token for token on two generated fragments on which the code conforms (nested calls in arguments; #, ##, "
          "__VA_ARGS__, __VA_OPT__, literals holding macro/parameter names and commas, empty and parenthesised-comma arguments, #undef, push_macro/pop_macro, -D, multi-line calls); "
          "departures outside them are recorded witness programs.",
